@@ -181,6 +181,10 @@ type Engine struct {
 	// writes will only exist in the cache and can be lost if a snapshot has not occurred.
 	WALEnabled bool
 
+	// snapshotSegments are the closed WAL segments covered by the cache snapshot
+	// that is being written (kept for a retry after a failed attempt).
+	snapshotSegments []string
+
 	// Invoked when creating a backup file "as new".
 	formatFileName FormatFileNameFunc
 
@@ -1944,6 +1948,15 @@ func (e *Engine) WriteSnapshot() (err error) {
 		snapshot, err = e.Cache.Snapshot()
 		if err != nil {
 			return
+		}
+
+		if e.Cache.snapshotIsRetry() {
+			// The snapshot of an earlier, failed attempt is written again. It only
+			// covers the segments that were closed back then; segments closed
+			// since hold writes that are still only in the cache.
+			segments = e.snapshotSegments
+		} else {
+			e.snapshotSegments = segments
 		}
 
 		return
